@@ -626,7 +626,7 @@ class Header:
         """
         inf_dict = self.to_dict()
         # Central freq of low channel (Mhz)
-        inf_dict["freq_low"] = self.fbottom + 0.5 * abs(self.foff)
+        inf_dict["freq_low"] = min(self.ftop, self.fbottom) + 0.5 * abs(self.foff)
         inf_dict["barycentric"] = 0
         inf_dict["observer"] = "Robotic overlords"
         inf_dict["analyser"] = "sigpyproc"
@@ -670,7 +670,10 @@ class Header:
         hdr_update = {
             "filename": header["basename"],
             "data_type": "time series",
-            "fch1": header["freq_low"] + header["foff"] * header["nchans"],
+            # Centre of the first channel: the lowest one of an ascending band,
+            # the highest one of a descending band
+            "fch1": header["freq_low"]
+            - min(0, header["foff"]) * (header["nchans"] - 1),
             "nbits": 32,
             "nchans": 1,
             "nifs": 1,
